@@ -375,6 +375,53 @@ def f6_buzzer_obligations(out):
                     "replay": {"script": src, "problem": prob}, "replay_confirmed": bool(prob)})
 
 
+def f8_obligations(out):
+    """F8: LCD power commands (display / backlight / brightness) with a literal flag or level against the same value in a variable:
+    a walk over every ordered pair of the seven commands, the backlight pin level after each command is the same in both sketches"""
+    import itertools
+    from progs import devdiff
+    from progs.diff import transpile
+    from fwsim.run import run_sketch
+    t0 = time.time()
+    CMDS = [("display", True), ("display", False), ("backlight", True), ("backlight", False), ("brightness", 0), ("brightness", 128), ("brightness", 255)]
+    seq = [c for a, b in itertools.product(CMDS, CMDS) for c in (a, b)]
+    levels, prob = {}, None
+    for form in ("literal", "variable"):
+        lines = ["d = LCD(rs=22, en=23, d4=24, d5=25, d6=26, d7=27, backlight_pin=10)"]
+        for k, (m, v) in enumerate(seq):
+            var = ("fb" if isinstance(v, bool) else "fi") + str(k % 2)
+            lines += ([f"d.{m}({v})"] if form == "literal" else [f"{var} = {v}", f"d.{m}({var})"]) + [f"mon.write('m{k}')"]
+        src = devdiff.IMPORTS + "\n".join(lines) + "\n"
+        cpp, err = transpile(src)
+        if cpp is None:
+            prob = f"{form} form rejected: {err}"
+            break
+        r = run_sketch(cpp, passes=0)
+        if not r.get("compiled"):
+            prob = f"{form} form does not compile: " + r.get("errors", "")[-200:]
+            break
+        level, seen = None, []
+        for e in r["events"]:
+            if e.startswith("W:10:"):
+                level = int(e.split(":")[2])
+            elif e.startswith("S:m"):
+                seen.append(level)
+        levels[form] = seen
+    if prob is None:
+        a, b = levels["literal"], levels["variable"]
+        if len(a) != len(seq) or len(b) != len(seq):
+            prob = f"markers reached: literal {len(a)}, variable {len(b)} of {len(seq)}"
+        else:
+            for k in range(len(seq)):
+                if a[k] != b[k]:
+                    prob = (f"after command #{k} {seq[k][0]}({seq[k][1]}) (preceded by {seq[k - 1][0]}({seq[k - 1][1]})): backlight pin at {a[k]} with literal arguments, "
+                            f"{b[k]} with the same values in variables")
+                    break
+    out.append({"name": "C03/F8/lcd-power-commands-literal-vs-variable", "status": "discharged" if not prob else ("unknown" if prob.startswith("markers") else "sat"), "backend": "enum+fwsim", "bounded": True,
+                "where": f"{len(seq)} display/backlight/brightness commands (every ordered pair): backlight pin level after each command, literal flag/level vs the same value in a variable",
+                "time": round(time.time() - t0, 2), "replay": {"problem": prob}, "replay_confirmed": bool(prob) and not prob.startswith("markers")})
+
+
 def f7_obligations(P, out):
     import multiprocessing as mp
     import re as _re
@@ -415,6 +462,7 @@ def extra_obligations(mods, tier, seed):
     f6_obligations(out)
     f6_buzzer_obligations(out)
     f7_obligations(P, out)
+    f8_obligations(out)
     return out
 
 
